@@ -1,4 +1,5 @@
 import RedoModel.Lemmas.Deps
+import RedoModel.Props.C17b
 /-!
 # C17 — redo-ood / redo-targets / redo-sources are safe and change nothing
 Property theorems only.  Model: `RedoModel/Deps.lean` (`isSource`, `isTarget`, `runCmd`).
